@@ -610,6 +610,17 @@ func (f *frame) entryParams() map[string]Val {
 			m[p.Name()] = f.params[i]
 		}
 	}
+	// a captured variable at entry: what its cell held in the entry state
+	for i, fv := range f.fn.FreeVars {
+		if i < len(f.bindings) && f.c.entry != nil {
+			b := f.bindings[i]
+			if b.IsPtr() {
+				m[fv.Name()] = f.c.loadPtr(f.c.entry, b, elemType(b.T))
+			} else {
+				m[fv.Name()] = b
+			}
+		}
+	}
 	return m
 }
 
